@@ -39,3 +39,15 @@ pub open spec fn av_text(a: Av) -> Seq<char> {
 pub open spec fn avs_text(l: Seq<Av>) -> Seq<char> decreases l.len() {
     if l.len() == 0 { Seq::empty() } else { avs_text(l.drop_last()) + av_text(l.last()) }
 }
+
+// rule S1 stand-ins for the constants of Cookie::new (assumed): the epoch, and thirty days
+#[verifier::external_body]
+pub fn unix_epoch() -> (r: SystemTime) ensures is_epoch(r) { unimplemented!() }
+#[verifier::external_body]
+pub fn thirty_days() -> (r: Duration) ensures dur_secs(r) == 2592000 { unimplemented!() }
+#[verifier::external_trait_specification]
+pub trait ExAsRef<T: core::marker::PointeeSized>: core::marker::PointeeSized {
+    type ExternalTraitSpecificationFor: core::convert::AsRef<T>;
+    fn as_ref(&self) -> (r: &T) ensures r == asref_spec::<Self, T>(self);
+}
+pub uninterp spec fn asref_spec<S: core::marker::PointeeSized, T: core::marker::PointeeSized>(s: &S) -> &T;
